@@ -298,10 +298,8 @@ namespace ratio
                     for (const auto &bnds : adapt.second.bounds)
                         if (!propagate_bounds(*bnds.first, *bnds.second, adapt.second.sigma_xi))
                         { // what has been executed so far is not compatible with the new plan: we look for another one..
-                            if (!backtrack_analyze_and_backjump())
+                            if (!backtrack_analyze_and_backjump() || !slv.solve()) // notice that, in case of success, we get back here..
                                 xi_violated = true;
-                            else
-                                slv.solve(); // notice that, in case of success, we get back here..
                             return;
                         }
             if (!slv.get_sat_core().propagate())
